@@ -1191,9 +1191,31 @@ impl TypeSpace {
     fn convert_number<'a>(
         &self,
         metadata: &'a Option<Box<Metadata>>,
-        _validation: &Option<Box<schemars::schema::NumberValidation>>,
+        validation: &Option<Box<schemars::schema::NumberValidation>>,
         format: &Option<String>,
     ) -> Result<(TypeEntry, &'a Option<Box<Metadata>>)> {
+        // As with integers, a default value outside of the range described by
+        // the schema is an error.
+        if let (Some(default), Some(validation)) = (
+            metadata
+                .as_ref()
+                .and_then(|m| m.default.as_ref())
+                .and_then(|v| v.as_f64()),
+            validation,
+        ) {
+            let low = validation.minimum.map_or(false, |min| default < min)
+                || validation
+                    .exclusive_minimum
+                    .map_or(false, |min| default <= min);
+            let high = validation.maximum.map_or(false, |max| default > max)
+                || validation
+                    .exclusive_maximum
+                    .map_or(false, |max| default >= max);
+            if low || high {
+                return Err(Error::InvalidValue);
+            }
+        }
+
         /*
         See https://github.com/oxidecomputer/typify/issues/169
         if let Some(validation) = validation {
